@@ -669,10 +669,23 @@ func Len(val Value) (int, error) {
 // Equal returns true if the two Values are considered equal.
 func Equal(left Value, right Value) bool {
 	// TODO: Stop-gap for now, this will need to be much more sophisticated.
+	return equalValues(left, right, map[comparison]bool{})
+}
+
+// A comparison identifies two lists or maps that are being, or have been,
+// compared (as reflect.DeepEqual does): data that refers back to itself ends
+// there, and a sub-list shared by many lists is compared once.
+type comparison struct {
+	left, right uintptr
+	length      int
+}
+
+func equalValues(left, right Value, seen map[comparison]bool) bool {
+	left, right = withoutSafe(left), withoutSafe(right)
 	if lc, rc := isContainer(left), isContainer(right); lc || rc {
 		// Lists and hashes all coerce to the empty string: they are compared
 		// element by element instead.
-		return lc && rc && equalContainers(left, right, 0)
+		return lc && rc && equalContainers(left, right, seen)
 	}
 	if isOpaque(left) || isOpaque(right) {
 		// Structs and the like coerce to the empty string as well.
@@ -681,13 +694,22 @@ func Equal(left Value, right Value) bool {
 	return CoerceString(left) == CoerceString(right)
 }
 
+// withoutSafe returns the value inside any SafeValue wrappers.
+func withoutSafe(v Value) Value {
+	for i := 0; i < 100; i++ {
+		sv, ok := v.(SafeValue)
+		if !ok || nilReceiver(sv, "Value") {
+			break
+		}
+		v = sv.Value()
+	}
+	return v
+}
+
 // isOpaque reports whether v is a struct, pointer, func or chan without a
 // value of its own (from Stringer, Number or Boolean): something all three
 // coercions answer with their fallback.
 func isOpaque(v Value) bool {
-	if sv, ok := v.(SafeValue); ok && !nilReceiver(sv, "Value") {
-		v = sv.Value()
-	}
 	switch v.(type) {
 	case Stringer, Number, Boolean, decimal.Decimal:
 		return false
@@ -701,13 +723,10 @@ func isOpaque(v Value) bool {
 	return false
 }
 
-// isContainer reports whether v is a slice, array or map (possibly behind
-// pointers or a SafeValue) that is not given a value of its own by one of the
-// Stringer, Number or Boolean interfaces.
+// isContainer reports whether v is a slice, array or map (possibly behind a
+// pointer) that is not given a value of its own by one of the Stringer,
+// Number or Boolean interfaces.
 func isContainer(v Value) bool {
-	if sv, ok := v.(SafeValue); ok && !nilReceiver(sv, "Value") {
-		v = sv.Value()
-	}
 	switch v.(type) {
 	case Stringer, Number, Boolean:
 		return false
@@ -721,47 +740,30 @@ func isContainer(v Value) bool {
 
 // equalContainers reports whether two lists have equal elements in the same
 // order, or two maps equal values under the same keys.
-func equalContainers(left, right Value, depth int) bool {
-	if IsMap(left) != IsMap(right) {
-		return false
-	}
+func equalContainers(left, right Value, seen map[comparison]bool) bool {
 	lv, rv := reflect.Indirect(reflect.ValueOf(left)), reflect.Indirect(reflect.ValueOf(right))
-	if lv.Kind() != reflect.Array && rv.Kind() != reflect.Array && lv.Type() == rv.Type() && lv.Pointer() == rv.Pointer() && lv.Len() == rv.Len() {
-		return true // one and the same list or map
-	}
-	if depth > 100 {
-		return false // data that refers back to itself
-	}
-	eq := func(a, b Value) bool {
-		if ac, bc := isContainer(a), isContainer(b); ac || bc {
-			return ac && bc && equalContainers(a, b, depth+1)
-		}
-		return Equal(a, b)
-	}
-	ll, _ := Len(left)
-	rl, _ := Len(right)
-	if ll != rl {
+	if (lv.Kind() == reflect.Map) != (rv.Kind() == reflect.Map) || lv.Len() != rv.Len() {
 		return false
 	}
-	if IsMap(left) {
-		equal := true
+	if lv.Kind() != reflect.Array && rv.Kind() != reflect.Array {
+		c := comparison{lv.Pointer(), rv.Pointer(), lv.Len()}
+		if c.left == c.right || seen[c] {
+			return true // the same list or map, or a pair already under comparison
+		}
+		seen[c] = true
+	}
+	equal := true
+	if lv.Kind() == reflect.Map {
 		Iterate(left, func(k, v Value, _ Loop) (bool, error) {
 			other, err := GetAttr(right, k)
-			equal = err == nil && eq(v, other)
+			equal = err == nil && equalValues(v, other, seen)
 			return !equal, nil
 		})
 		return equal
 	}
-	var elems []Value
-	Iterate(right, func(_, v Value, _ Loop) (bool, error) {
-		elems = append(elems, v)
-		return false, nil
-	})
-	equal := true
-	Iterate(left, func(_, v Value, l Loop) (bool, error) {
-		equal = eq(v, elems[l.Index0])
-		return !equal, nil
-	})
+	for i := 0; i < lv.Len() && equal; i++ {
+		equal = equalValues(lv.Index(i).Interface(), rv.Index(i).Interface(), seen)
+	}
 	return equal
 }
 
